@@ -193,6 +193,18 @@ def run_k6(tier, seed):
             continue
         for rp in (["caller", "n:0"] if tier == "quick" else ["caller", "n:0", "n:1", "n:3", "n:7"]):
             rcases.append(c + " rpanic=" + rp + (" delay=200" if n_in <= 40 else " delay=20"))
+    # designed: ascending inputs 0..n-1, the operator panics as soon as its right operand is >= n, i.e.
+    # a whole-chunk result being folded into what the worker accumulated from earlier chunks
+    dcid = 900000
+    for src in gen_harness.TOK_SOURCES:
+        for ch, stages in (("", []), ("M", ["M:1:0"]), ("F", ["Fa"])):
+            for (nt, cs) in [(2, ("C", 2)), (3, ("C", 4)), (2, ("Cm", 3)), (4, ("C", 3))]:
+                n = 24
+                ops = ["N:%d" % nt, "%s:%d" % cs] + stages + ["%s:%d" % cs, "N:%d" % nt]
+                rcases.append("id=%d shape=%s known=%d in=%s ops=%s term=red:add avail=%d sched=- fuel=100000 rpanic=ge:%d delay=200" % (
+                    dcid, gen_harness.shape_name(src, ch), 1 if gen_harness.TOK_SOURCES[src][2] else 0,
+                    ",".join(map(str, range(n))), ";".join(ops), k3.AVAIL, n))
+                dcid += 1
     res["reduce_panic_cases"] = len(rcases)
     res["reduce_panic_fired"] = 0
     rimpl = run_isolated(bins["k3"], rcases, batch=40, tmo_batch=90, tmo_single=30, max_timeouts=3)
